@@ -16,6 +16,26 @@ Theorem file_roundtrip : forall (gzip : list Z -> list Z) (gunzip : list Z -> re
 Proof. exact file_roundtrip_lemma. Qed.
 Print Assumptions file_roundtrip.
 
+(* hence the wire format is injective on well-formed indexes: two different indexes never share a payload (nothing
+   of an index is lost or conflated by writing it), also through the cache file for any sound compressor *)
+Theorem serialize_injective : forall ix ix', wf_index ix = true -> wf_index ix' = true ->
+  serialize_index ix = serialize_index ix' -> ix = ix'.
+Proof.
+  intros ix ix' W W' E. pose proof (index_roundtrip ix W) as R. rewrite E, (index_roundtrip ix' W') in R.
+  inversion R. reflexivity.
+Qed.
+Print Assumptions serialize_injective.
+
+Theorem file_serialize_injective : forall (gzip : list Z -> list Z) (gunzip : list Z -> res (list Z)),
+  (forall x, gunzip (gzip x) = Ok x) ->
+  forall ix ix', wf_index ix = true -> wf_index ix' = true ->
+  serialize_file gzip ix = serialize_file gzip ix' -> ix = ix'.
+Proof.
+  intros gzip gunzip G ix ix' W W' E. pose proof (file_roundtrip gzip gunzip G ix W) as R.
+  rewrite E, (file_roundtrip gzip gunzip G ix' W') in R. inversion R. reflexivity.
+Qed.
+Print Assumptions file_serialize_injective.
+
 (* ---- corruption ------------------------------------------------------------------------------------------ *)
 (* reading ANY byte string never panics and never runs out of fuel *)
 Theorem decode_total : forall bytes, bytes_okb bytes = true -> total (deserialize_index bytes).
